@@ -106,4 +106,31 @@ example : errClass (encodeMessage none (PDescs.toParams cDesc) (.dict [("st", .d
 /-- no static length: the structure contains a DTC-DOP parameter (although every accepted PDU has 5 bytes) -/
 example : (Dop.struct none (PDescs.toParams cDesc)).staticBitLen = none := by decide +kernel
 
+/-! ## non-vacuity — static length with compu-method leaves, on `tDesc` of `Props/C04Nested3.lean`:
+    [ sid; st : { mode : TEXTTABLE u8; t : LINEAR u8 } ] — static length 24 bits; every accepted PDU has 3 bytes -/
+def tShape : List Tree :=
+  [.const ⟨"sid", none, none, none, true, 8, .uint32⟩ (.int 0x22),
+   .struct "st" none [.int tMode.o (.int 0), .int tTemp.o (.int 0)]]
+
+theorem tDesc_static : ∀ (i : Nat) (_h1 : i < tDesc.length) (h2 : i < tShape.length), StaticP3 tDesc[i] tShape[i] := by
+  intro i _ h2
+  match i, h2 with
+  | 0, _ => exact .old _ _ (StaticP.const _ _ (by simp [Obj.ok, Obj.encOk, Obj.sizeOk]) (by simp [Obj.inRange]))
+  | 1, _ =>
+    refine StaticP3.struct "st" none _ _ rfl ?_ (pnamesOk2 _ _ (by decide))
+    intro j g1 g2
+    match j, g1, g2 with
+    | 0, _, _ => exact tMode.static tMode_ok _
+    | 1, _, _ => exact tTemp.static tTemp_ok _
+
+example : Trees.cursorOkS tShape = true := by decide
+example : (Dop.struct none (PDescs.toParams tDesc)).staticBitLen = some 24 := by decide +kernel
+/-- the theorem applies: ("hi", 360) ↦ `22 09 C8`, 3 bytes = 24 bits -/
+example : (Dop.struct none (PDescs.toParams tDesc)).staticBitLen = some (8 * [0x22, 9, 200].length) :=
+  C08_static_length_nested3_partial tDesc tShape rfl tDesc_static tDesc_names.1 (by decide)
+    (tMk tHi (.atom (.int 360))) (by decide +kernel) none (by decide +kernel) _ 0 (except_ok_of_toOption (by decide +kernel))
+/-- required: `mode` and `t` (VALUE over compu DOPs, no default); omitting `t` inside `st` is rejected with `EncodeError` -/
+example : [tMode.pdesc, tTemp.pdesc].map (fun p => (p.name, p.param.kind.required, (p.fill none).isSome)) =
+    [("mode", true, false), ("t", true, false)] := by decide +kernel
+
 end OdxVerif.Codec
